@@ -381,6 +381,31 @@ pub fn run(run: &mut Run) -> Finish {
         l.case(text.chars().any(|c| c == 'é' || c == '𝒜' || c == '→'), h64(&(3u8, menu.len())));
     });
 
+    // slice 5: the other ASCII control characters that some line-break definitions include (vertical
+    // tab, form feed, NEL as two bytes) are ordinary characters here
+    const CTL: [char; 6] = ['a', '\n', '\r', '\u{b}', '\u{c}', '\u{85}'];
+    let cmax = 5u32;
+    let mut ctotal = 0u64;
+    let mut cstarts = vec![];
+    for len in 0..=cmax {
+        cstarts.push(ctotal);
+        ctotal += (CTL.len() as u64).pow(len);
+    }
+    run.par_slice("every text up to length 5 over {a, \\n, \\r, VT, FF, NEL}: lines, count, iterator and a late line first", 5, ctotal, |idx, l| {
+        let k = idx & ((1 << 40) - 1);
+        let len = cstarts.iter().rposition(|&s| s <= k).unwrap();
+        let text: String = seq_of(k - cstarts[len], CTL.len() as u64, len).iter().map(|&i| CTL[i]).collect();
+        let n = rlines(&text).len() as u32;
+        for (j, ops) in [vec![Op::Lines, Op::Count], vec![Op::Get(n.saturating_sub(1)), Op::Get(0), Op::Count, Op::Get(n)], vec![Op::Count, Op::Slice(0, 0, 1)]].iter().enumerate() {
+            if let Some(v) = replay_history(&text, j % CTORS.len(), ops) {
+                l.violation_sub(idx, j as u64, v);
+            }
+            l.traces += 1;
+            l.transitions += ops.len() as u64;
+        }
+        l.case(n > 1, h64(&(5u8, n)));
+    });
+
     // slice 4: long texts (anything the index does per batch of lines is crossed): 63..130 lines with
     // cycling terminators, a few request orders that index everything in one call or piecemeal
     let long_ns = [63usize, 64, 65, 66, 129, 130];
